@@ -72,6 +72,7 @@ def run_seq(sh, s, d, case):
     recfs.LOG.enabled = False
     clock.install(clock.FakeClock())
     hostile = Hostile(random.Random(s + 5))
+    hrnd = random.Random(s + 9)
     ZODB.DemoStorage.random = hostile
     kind = rnd.choice(['file', 'file', 'mapping', 'demo', 'demo-file', 'demo-push', 'demo-filebase'])
     path = os.path.join(d, 'Data.fs')
@@ -103,7 +104,10 @@ def run_seq(sh, s, d, case):
         tgt.tpc_begin(t)
         for (o, data) in pairs:
             if restore:
-                tgt.restore(o, tgt._tid, data, '', None, t)
+                # (half of the restored records carry a back-pointer hint naming a transaction this storage does not have, as
+                # records of the tail of a history do when only that tail is copied: the data are then written in full)
+                hint = None if hrnd.random() < 0.5 else b'\x03\x10\x00\x00\x00\x00\x00\x01'
+                tgt.restore(o, tgt._tid, data, '', hint, t)
             else:
                 tgt.store(o, present.get(o) or z64, data, '', t)
         tgt.tpc_vote(t)
